@@ -39,16 +39,24 @@ def strategy(tier):
                                   extra_actions=stoch.stoch_actions(with_stats=True, reinit=True))
     seeds = st.lists(st.one_of(st.integers(0, 50), st.integers()), min_size=1, max_size=3)
     return st.fixed_dictionaries({
-        "prog": prog, "seeds": seeds,
+        "prog": prog, "seeds": seeds, "n_initial": st.integers(0, 2), "reuse_streams": st.booleans(),
         "prior": st.fixed_dictionaries({
-            "kind": st.sampled_from(PRIORS), "k": st.integers(1, 12), "seeds": seeds,
+            "kind": st.sampled_from(PRIORS), "k": st.integers(1, 12), "seeds": seeds, "same_seeds": st.booleans(),
             "other_rep": st.booleans(), "frac": st.integers(1, 9)}),
     })
 
 
-def _fresh_run(prog, seeds):
+def _add_initial(h, n):
+    """register n initial methods (executed at the end of every initialize()); they schedule 'now' events"""
+    h.program.setdefault("initial", [[["now", i, 5]] for i in range(2)])
+    for i in range(n):
+        h.sim.add_initial_method(h.model, "initial", idx=i)
+
+
+def _fresh_run(prog, seeds, n_initial=0, reuse=False):
     h = Harness(prog)
-    stoch.install(h.model, seeds)
+    stoch.install(h.model, seeds, reuse_streams=reuse)
+    _add_initial(h, n_initial)
     try:
         h.initialize()
         after_init = (enc_obs(h.sim.simulator_time), h.sim.eventlist().size())
@@ -82,12 +90,22 @@ def run_case(case):
     prog = case["prog"]
     pr = case["prior"]
     out.label("clock=" + prog["clock"], "prior=" + pr["kind"])
-    want, want_init, leaked = _fresh_run(prog, case["seeds"])
+    n_init = case.get("n_initial", 0)
+    reuse = case.get("reuse_streams", False)
+    if n_init:
+        out.label("initial-methods")
+    if reuse:
+        out.label("streams-reused")
+    want, want_init, leaked = _fresh_run(prog, case["seeds"], n_init, reuse)
     if leaked:
         out.fail("thread-leak", "fresh run")
 
     h = Harness(prog)
-    stoch.install(h.model, pr["seeds"])
+    prior_seeds = case["seeds"] if pr.get("same_seeds") else pr["seeds"]
+    if pr.get("same_seeds"):
+        out.label("prior-same-seeds")
+    stoch.install(h.model, prior_seeds, reuse_streams=reuse)
+    _add_initial(h, n_init)
     left_pending = left_stats = False
     try:
         kind = pr["kind"]
@@ -166,7 +184,7 @@ def run_case(case):
     if want["reinit_log"] and not out.disc:
         out.label("reinit-attempted")
         p2 = _strip_reinit(prog)
-        w2, _, _ = _fresh_run(p2, case["seeds"])
+        w2, _, _ = _fresh_run(p2, case["seeds"], n_init, reuse)
         for key in ("trace", "clock", "state", "draws", "notifications", "stats"):
             if w2.get(key) != want.get(key):
                 out.fail("reinit-attempt-changed-" + key, {"len": [len(str(w2.get(key))), len(str(want.get(key)))]})
